@@ -12,6 +12,9 @@ import MW.Lemmas.Deepen3Crash
 import MW.Lemmas.Deepen3Pend
 import MW.Lemmas.Deepen3Task
 import MW.Lemmas.Deepen3Ex
+import MW.Lemmas.Deepen4Resume
+import MW.Lemmas.Deepen4Ex
+import MW.Lemmas.Deepen4Unguarded
 namespace MW.Props.C06
 open MW MW.Model.Ledger MW.Model.Persist MW.Spec.Persist MW.Lemmas.PersistOp MW.Lemmas.PersistFault MW.Lemmas.PersistCrash
 
@@ -531,6 +534,266 @@ theorem import_split (batch n : Nat) (env : Env) (w : Wid) (k m : Nat) (P Pk : P
     (h : Lemmas.Deepen3.importPrefix batch n env w k P V = some (Pk, Vk)) :
     Lemmas.Deepen3.importLoop batch n env w (k + m) P V = Lemmas.Deepen3.importLoop batch n env w m Pk Vk :=
   Lemmas.Deepen3.importLoop_split batch n env w k m P Pk V Vk h
+
+
+-- ------------------------------------------------------------------ ROUND 4: histories with background tasks
+
+open MW.Lemmas.Deepen3 MW.Lemmas.Deepen4 in
+/-- **crash_tasks_inv** (round 4).  The world of `crash_equiv` with the worker's tasks as events (`EvT`): ImportWallet
+    (`importStart`: keystore bucket, cache entry, status "importing from 0", address records — one Update — then the
+    rescan is queued), one batch of the rescan (`importStep` = `opImportStep`, C07's `importStep`), RemoveWallet
+    (`removeMark`), one iteration of the removal (`removeStep` = `opRemoveStep`, C08's `removeStep`), the worker running
+    its task to the end (`importDrain` / `removeDrain`).  The worker runs a task only if it is in its queue
+    (`PVol.tasks`) — after a crash: only because Start's `initTaskChan` put it there again.  EVERY event keeps the
+    invariant `JT`, in the crashing run and in the run that never stops: outside a task window round 3's `JQ`; inside
+    an import window `JI` = C07's joined invariant `IJ` for the chain the store follows (the ready wallets' books for
+    all of it, the restored wallet's books up to its cursor), exact key cache, the rescan queued whenever the stored
+    status says "importing"; inside a removal window `JR` = C08's in-progress invariant `Mid`, the wallet flagged, the
+    removal queued — or, after the finishing iteration, `JQ` for the table without the wallet. -/
+theorem crash_tasks_inv {cfg : Cfg} {G : Block} (E : StaticOK cfg.st G) (hG : G.txs = []) (hb : cfg.batch > 0)
+    (hl : cfg.limit > 0) (cr : Bool)
+    (evs : List EvT) (x : SysQ) (k : SkelT) (hJ : JT cfg G x k) (hR : RunOKT cfg G k evs) (hg : GuardT cfg cr x evs) :
+    JT cfg G (runT cfg cr x evs) (skRunT cfg k evs) := JT_run E hG hb hl cr evs x k hJ hR hg
+
+open MW.Lemmas.Deepen3 MW.Lemmas.Deepen4 in
+/-- **crash_equiv_tasks** (round 4) — `crash_equiv` for histories WITH import / removal events.  One history of node
+    events (extend, reorganise to any branch), handler steps, CreateWallet, NewAddress, unconfirmed transactions, task
+    events and `crash` events, run with every crash executed (store kept, volatile state rebuilt by boot, notification
+    queue lost, the real Start: resync, catch-up, `initTaskChan`) and with the crashes ignored.  If every task window of
+    the history has been closed (no task pending: `busy = none`) and the run that never stops has no notification
+    pending, then neither has the crashing run, and the two hold the SAME keystore buckets and key cache, tip copy and
+    synced-to height, extensionally equal confirmed buckets and equal balances; every wallet is ready in both.
+    INTERLEAVINGS COVERED (`StepOKT`, `WindowOK`): one task at a time (the code answers ErrTooManyTask to a second);
+    inside an IMPORT window: crashes at ANY commit boundary — follower lagging, on a stale branch, rescan at any cursor —
+    node extensions and reorganisations to any branch (above / at / below the cursor), batches against a node that has
+    moved on (put off by the followed-chain check), unconfirmed transactions, handler steps for ANY queued
+    notification — stale ones included (they fail and change nothing, or roll back onto the followed chain) —
+    CreateWallet, NewAddress of any wallet but the one being restored (for which the code refuses it); inside a REMOVAL
+    window: node events, iterations, crashes while no notification is pending, the drain (which provably terminates),
+    CreateWallet (under another name), NewAddress of the other wallets, unconfirmed transactions that are in no chain
+    the node has had — no handler step and no crash with a non-empty catch-up (C08 has no follower theorem for a partly
+    deleted wallet).  STATE HYPOTHESIS (`GuardT`, for removals only): at RemoveWallet no unmined credit belongs
+    to a transaction of the followed chain (C08's open follower invariant `pendOff`; its other one, one credit entry per
+    key, is carried by `JT`: `credNodup_stepT`). -/
+theorem crash_equiv_tasks {cfg : Cfg} {G : Block} (E : StaticOK cfg.st G) (hG : G.txs = []) (hb : cfg.batch > 0)
+    (hl : cfg.limit > 0) (evs : List EvT) (x0 : SysQ) (k0 : SkelT) (hJ : JT cfg G x0 k0) (hR : RunOKT cfg G k0 evs)
+    (hg1 : GuardT cfg true x0 evs) (hg2 : GuardT cfg false x0 evs)
+    (hidle : (skRunT cfg k0 evs).busy = none) (hq : (runT cfg false x0 evs).queue = []) :
+    (runT cfg true x0 evs).queue = [] ∧
+    (runT cfg true x0 evs).chain = (runT cfg false x0 evs).chain ∧
+    (runT cfg true x0 evs).P.ks = (runT cfg false x0 evs).P.ks ∧
+    (runT cfg true x0 evs).V.keys = (runT cfg false x0 evs).V.keys ∧
+    AMap.Equiv (runT cfg true x0 evs).P.led.credits (runT cfg false x0 evs).P.led.credits ∧
+    AMap.Equiv (runT cfg true x0 evs).P.led.unspent (runT cfg false x0 evs).P.led.unspent ∧
+    AMap.Equiv (runT cfg true x0 evs).P.led.debits (runT cfg false x0 evs).P.led.debits ∧
+    AMap.Equiv (runT cfg true x0 evs).P.led.game (runT cfg false x0 evs).P.led.game ∧
+    AMap.Equiv (runT cfg true x0 evs).P.led.txrecs (runT cfg false x0 evs).P.led.txrecs ∧
+    AMap.Equiv (runT cfg true x0 evs).P.led.blocks (runT cfg false x0 evs).P.led.blocks ∧
+    AMap.Equiv (runT cfg true x0 evs).P.led.sync (runT cfg false x0 evs).P.led.sync ∧
+    (runT cfg true x0 evs).P.led.syncedTo = (runT cfg false x0 evs).P.led.syncedTo ∧
+    (runT cfg true x0 evs).V.led.best = (runT cfg false x0 evs).V.led.best ∧
+    (∀ w ∈ walletsOf (runT cfg false x0 evs).P.ks,
+      AMap.get (runT cfg true x0 evs).P.led.balance w = AMap.get (runT cfg false x0 evs).P.led.balance w ∧
+      Lemmas.Deepen3.readyB (runT cfg true x0 evs).P.led w = true ∧
+      Lemmas.Deepen3.readyB (runT cfg false x0 evs).P.led w = true) :=
+  Lemmas.Deepen4.crash_equiv_tasks E hG hb hl evs x0 k0 hJ hR hg1 hg2 hidle hq
+
+open MW.Lemmas.Deepen3 MW.Lemmas.Deepen4 in
+/-- **crash_equiv_tasks_quiet** (round 4) — the same at ANY quiet point, also inside a task window the history has not
+    closed: whenever the run that never stops has nothing queued and in BOTH runs no task is pending (`IdleAt`: the
+    wallet of the open window is finished according to the STORE — status ready resp. status entry gone), the crashing
+    run has nothing queued either and the two agree on everything confirmed.  That the crashing run is finished when
+    the other one is cannot be concluded from the history alone: at the same event index the two may be at different
+    points of the rescan (`MW.Lemmas.Deepen4.exEvsT`: events 14 vs 18), which is why it is asked of both. -/
+theorem crash_equiv_tasks_quiet {cfg : Cfg} {G : Block} (E : StaticOK cfg.st G) (hG : G.txs = []) (hb : cfg.batch > 0)
+    (hl : cfg.limit > 0) (evs : List EvT) (x0 : SysQ) (k0 : SkelT) (hJ : JT cfg G x0 k0) (hR : RunOKT cfg G k0 evs)
+    (hg1 : GuardT cfg true x0 evs) (hg2 : GuardT cfg false x0 evs)
+    (hidle1 : IdleAt (runT cfg true x0 evs) (skRunT cfg k0 evs).busy)
+    (hidle2 : IdleAt (runT cfg false x0 evs) (skRunT cfg k0 evs).busy)
+    (hq : (runT cfg false x0 evs).queue = []) :
+    (runT cfg true x0 evs).queue = [] ∧
+    (runT cfg true x0 evs).chain = (runT cfg false x0 evs).chain ∧
+    (runT cfg true x0 evs).P.ks = (runT cfg false x0 evs).P.ks ∧
+    (runT cfg true x0 evs).V.keys = (runT cfg false x0 evs).V.keys ∧
+    AMap.Equiv (runT cfg true x0 evs).P.led.credits (runT cfg false x0 evs).P.led.credits ∧
+    AMap.Equiv (runT cfg true x0 evs).P.led.unspent (runT cfg false x0 evs).P.led.unspent ∧
+    AMap.Equiv (runT cfg true x0 evs).P.led.debits (runT cfg false x0 evs).P.led.debits ∧
+    AMap.Equiv (runT cfg true x0 evs).P.led.game (runT cfg false x0 evs).P.led.game ∧
+    AMap.Equiv (runT cfg true x0 evs).P.led.txrecs (runT cfg false x0 evs).P.led.txrecs ∧
+    AMap.Equiv (runT cfg true x0 evs).P.led.blocks (runT cfg false x0 evs).P.led.blocks ∧
+    AMap.Equiv (runT cfg true x0 evs).P.led.sync (runT cfg false x0 evs).P.led.sync ∧
+    (runT cfg true x0 evs).P.led.syncedTo = (runT cfg false x0 evs).P.led.syncedTo ∧
+    (runT cfg true x0 evs).V.led.best = (runT cfg false x0 evs).V.led.best ∧
+    (∀ w ∈ walletsOf (runT cfg false x0 evs).P.ks,
+      AMap.get (runT cfg true x0 evs).P.led.balance w = AMap.get (runT cfg false x0 evs).P.led.balance w ∧
+      Lemmas.Deepen3.readyB (runT cfg true x0 evs).P.led w = true ∧
+      Lemmas.Deepen3.readyB (runT cfg false x0 evs).P.led w = true) :=
+  Lemmas.Deepen4.crash_equiv_tasks_quiet E hG hb hl evs x0 k0 hJ hR hg1 hg2 hidle1 hidle2 hq
+
+open MW.Lemmas.Deepen3 MW.Lemmas.Deepen4 in
+/-- **worker_runs_queued** (round 4).  `stepT` lets the worker look at the stored status as well as at its queue (a queued
+    task of a ready / absent wallet is skipped).  On every reachable state that second test is implied by the first:
+    `StatOK` — one status entry per wallet, only stored keystores have one, every queued task is for an unfinished
+    wallet, no wallet is queued for a rescan and a removal at once — is kept by EVERY event from ANY state (no other
+    invariant needed; crashes included: `initTaskChan` re-queues exactly the unfinished wallets), hence the world `runU`
+    whose worker runs whatever is queued IS `runT`. -/
+theorem worker_runs_queued (cfg : Cfg) (cr : Bool) (x : SysQ) (evs : List EvT) (h : StatOK x) :
+    StatOK (runT cfg cr x evs) ∧ runU cfg cr x evs = runT cfg cr x evs :=
+  ⟨statOK_runT cfg cr x evs h, runU_eq_runT cfg cr x evs h⟩
+
+open MW.Lemmas.Deepen3 MW.Lemmas.Deepen4 in
+/-- **crash_equiv_tasks_unguarded** (round 4): `crash_equiv_tasks_quiet` (hence `crash_equiv_tasks`) for the world whose
+    worker runs whatever is queued -/
+theorem crash_equiv_tasks_unguarded {cfg : Cfg} {G : Block} (E : StaticOK cfg.st G) (hG : G.txs = []) (hb : cfg.batch > 0)
+    (hl : cfg.limit > 0) (evs : List EvT) (x0 : SysQ) (k0 : SkelT) (hJ : JT cfg G x0 k0) (hS : StatOK x0)
+    (hR : RunOKT cfg G k0 evs) (hg1 : GuardT cfg true x0 evs) (hg2 : GuardT cfg false x0 evs)
+    (hidle1 : IdleAt (runU cfg true x0 evs) (skRunT cfg k0 evs).busy)
+    (hidle2 : IdleAt (runU cfg false x0 evs) (skRunT cfg k0 evs).busy)
+    (hq : (runU cfg false x0 evs).queue = []) :
+    (runU cfg true x0 evs).queue = [] ∧
+    (runU cfg true x0 evs).chain = (runU cfg false x0 evs).chain ∧
+    (runU cfg true x0 evs).P.ks = (runU cfg false x0 evs).P.ks ∧
+    (runU cfg true x0 evs).V.keys = (runU cfg false x0 evs).V.keys ∧
+    AMap.Equiv (runU cfg true x0 evs).P.led.credits (runU cfg false x0 evs).P.led.credits ∧
+    AMap.Equiv (runU cfg true x0 evs).P.led.unspent (runU cfg false x0 evs).P.led.unspent ∧
+    AMap.Equiv (runU cfg true x0 evs).P.led.debits (runU cfg false x0 evs).P.led.debits ∧
+    AMap.Equiv (runU cfg true x0 evs).P.led.game (runU cfg false x0 evs).P.led.game ∧
+    AMap.Equiv (runU cfg true x0 evs).P.led.txrecs (runU cfg false x0 evs).P.led.txrecs ∧
+    AMap.Equiv (runU cfg true x0 evs).P.led.blocks (runU cfg false x0 evs).P.led.blocks ∧
+    AMap.Equiv (runU cfg true x0 evs).P.led.sync (runU cfg false x0 evs).P.led.sync ∧
+    (runU cfg true x0 evs).P.led.syncedTo = (runU cfg false x0 evs).P.led.syncedTo ∧
+    (runU cfg true x0 evs).V.led.best = (runU cfg false x0 evs).V.led.best ∧
+    (∀ w ∈ walletsOf (runU cfg false x0 evs).P.ks,
+      AMap.get (runU cfg true x0 evs).P.led.balance w = AMap.get (runU cfg false x0 evs).P.led.balance w ∧
+      Lemmas.Deepen3.readyB (runU cfg true x0 evs).P.led w = true ∧
+      Lemmas.Deepen3.readyB (runU cfg false x0 evs).P.led w = true) :=
+  Lemmas.Deepen4.crash_equiv_tasks_unguarded E hG hb hl evs x0 k0 hJ hS hR hg1 hg2 hidle1 hidle2 hq
+
+open MW.Lemmas.Deepen3 MW.Lemmas.Deepen4 in
+/-- a history of round-3 events is a history of this world: `crash_equiv` is the task-free instance -/
+theorem crash_equiv_tasks_conservative (cfg : Cfg) (cr : Bool) (evs : List EvQ) (x : SysQ) :
+    runT cfg cr x (evs.map EvT.q) = runQ cfg.st cfg.n cr x evs := runT_q cfg cr evs x
+
+open MW.Lemmas.Deepen3 MW.Lemmas.Deepen4 in
+/-- **import_window_crash** (round 4): a crash at ANY commit boundary of an import window: boot + Start succeed, the
+    restarted wallet follows the node's whole chain in the joined sense (cursor pulled back where the catch-up
+    reorganised below it), nothing is queued, and the rescan is in the worker's queue again -/
+theorem import_window_crash {cfg : Cfg} {G : Block} (E : StaticOK cfg.st G) {x : SysQ} {k : Skel} {w : Wid}
+    (hJ : JI cfg G x k w) :
+    JI cfg G (stepQ cfg.st cfg.n true x .crash) k w ∧ (stepQ cfg.st cfg.n true x .crash).queue = [] ∧
+    (crash (envAt cfg.st x.chain) cfg.n x.P).ok = true := JI_crash E hJ
+
+open MW.Lemmas.Deepen3 MW.Lemmas.Deepen4 MW.Lemmas.ImportJoin in
+/-- **crash_during_start_import** (round 4): a crash DURING Start inside an import window — between any two commits of
+    its resync / catch-up (`SInvJ`: the store follows a prefix of the node's chain in the joined sense) — is again a
+    state from which boot + Start succeed, reach the node's whole chain and queue the unfinished work: the commit
+    boundaries inside Start are crash points too -/
+theorem crash_during_start_import {st : Static} {G : Block} (E : StaticOK st G) {ks : AMap.T Wid KsRec}
+    {chain : List Block} (hN : Lemmas.Ledger.ChainOK (lenv st ks) G chain) (n : Nat) {w : Wid} {s0 : Store} {h : Nat}
+    {P : PStore} {V : PVol} (hS : SInvJ st ks chain w s0 h P V) (hKN : Lemmas.Ledger.KeysNodup (ownOf ks))
+    (hw : w ∈ walletsOf ks) :
+    (crash (envAt st chain) n P).ok = true ∧
+    IJ ((lenv st ks).ctx chain) w (crash (envAt st chain) n P).P.led chain ∧
+    (crash (envAt st chain) n P).V.led.best = Lemmas.Ledger.tipMeta chain ∧
+    (crash (envAt st chain) n P).V.tasks = requeue (crash (envAt st chain) n P).P :=
+  crash_during_start_ij E hN n hS hKN hw
+
+open MW.Lemmas.Deepen3 MW.Lemmas.Deepen4 in
+/-- **resumption_anywhere_full** (round 4).  The state `x` is the one ANY history reaches inside an import window —
+    rescan at any cursor, follower lagging or on a branch the node has left, batches already put off, any number of
+    earlier crashes at any commit boundaries.
+    Run A is not interrupted: the follower works off its queue, then the worker finishes the rescan.  Run B crashes
+    NOW: Start succeeds (resync, catch-up on the joined store), `initTaskChan` queues the rescan again, the worker
+    finishes it.  Both end with nothing queued, the same keystore, key cache, tip copy, synced-to, extensionally equal
+    confirmed buckets, equal balances, every wallet — the restored one included — ready. -/
+theorem resumption_anywhere_full {cfg : Cfg} {G : Block} (E : StaticOK cfg.st G) (hG : G.txs = []) (hb : cfg.batch > 0)
+    (hl : cfg.limit > 0) (evs : List EvT) (x0 : SysQ) (k0 : SkelT) (hJ : JT cfg G x0 k0) (hR : RunOKT cfg G k0 evs)
+    (hg : GuardT cfg true x0 evs) (w : Wid) (hbusy : (skRunT cfg k0 evs).busy = some (.imp w))
+    (fuel : Nat) (hfuel : (skRunT cfg k0 evs).base.chain.length + 1 ≤ fuel) :
+    let x := runT cfg true x0 evs
+    let A := stepT cfg false (handleAll cfg false x) (.importDrain w fuel)
+    let B := stepT cfg true (stepQ cfg.st cfg.n true x .crash) (.importDrain w fuel)
+    (crash (envAt cfg.st x.chain) cfg.n x.P).ok = true ∧
+    B.queue = [] ∧ A.queue = [] ∧ B.chain = A.chain ∧ B.P.ks = A.P.ks ∧ B.V.keys = A.V.keys ∧
+    AMap.Equiv B.P.led.credits A.P.led.credits ∧ AMap.Equiv B.P.led.unspent A.P.led.unspent ∧
+    AMap.Equiv B.P.led.debits A.P.led.debits ∧ AMap.Equiv B.P.led.game A.P.led.game ∧
+    AMap.Equiv B.P.led.txrecs A.P.led.txrecs ∧ AMap.Equiv B.P.led.blocks A.P.led.blocks ∧
+    AMap.Equiv B.P.led.sync A.P.led.sync ∧ B.P.led.syncedTo = A.P.led.syncedTo ∧ B.V.led.best = A.V.led.best ∧
+    (∀ w' ∈ walletsOf A.P.ks, AMap.get B.P.led.balance w' = AMap.get A.P.led.balance w' ∧
+      Lemmas.Deepen3.readyB B.P.led w' = true ∧ Lemmas.Deepen3.readyB A.P.led w' = true) :=
+  Lemmas.Deepen4.resumption_anywhere_full E hG hb hl evs x0 k0 hJ hR hg w hbusy fuel hfuel
+
+open MW.Lemmas.Deepen3 MW.Lemmas.Deepen4 in
+/-- … the same from any state that satisfies the window invariant (what the above instantiates) -/
+theorem resumption_anywhere_import {cfg : Cfg} {G : Block} (E : StaticOK cfg.st G) (hb : cfg.batch > 0) {x : SysQ}
+    {k : Skel} {w : Wid} (hJ : JI cfg G x k w) (hshort : ∀ c ∈ k.hist, c.length + cfg.batch < 2 ^ 64)
+    (fuel : Nat) (hfuel : k.chain.length + 1 ≤ fuel) :
+    (crash (envAt cfg.st x.chain) cfg.n x.P).ok = true ∧
+    (importDone (stepQ cfg.st cfg.n true x .crash).P w = false →
+      (stepQ cfg.st cfg.n true x .crash).V.tasks.contains (.imp w) = true) ∧
+    JQ cfg.st G (stepT cfg false (handleAll cfg false x) (.importDrain w fuel)) k ∧
+    JQ cfg.st G (stepT cfg true (stepQ cfg.st cfg.n true x .crash) (.importDrain w fuel)) k ∧
+    (stepT cfg false (handleAll cfg false x) (.importDrain w fuel)).queue = [] ∧
+    (stepT cfg true (stepQ cfg.st cfg.n true x .crash) (.importDrain w fuel)).queue = [] :=
+  resumption_from_JI E hb hJ hshort fuel hfuel
+
+open MW.Lemmas.Deepen3 MW.Lemmas.Deepen4 in
+/-- **resumption_anywhere_remove** (round 4): a removal interrupted between ANY two iterations while no notification
+    is pending — run A: the worker finishes; run B: crash now (Start leaves the store alone and queues the removal
+    again), then the worker finishes.  Both loops complete (`removeLoop_total`: under C08's `Mid` no iteration fails and
+    every non-finishing one deletes a credit of the wallet) and both end in round 3's invariant for the keystore table
+    WITHOUT the wallet, with the same confirmed books. -/
+theorem resumption_anywhere_remove {cfg : Cfg} {G : Block} (E : StaticOK cfg.st G) (hl : cfg.limit > 0) {x : SysQ}
+    {k : Skel} {w : Wid} (hJ : JR cfg G x k w) (hq : x.queue = []) :
+    let A := stepT cfg false x (.removeDrain w)
+    let B := stepT cfg true (stepQ cfg.st cfg.n true x .crash) (.removeDrain w)
+    B.queue = [] ∧ A.queue = [] ∧ B.chain = A.chain ∧ B.P.ks = A.P.ks ∧ B.V.keys = A.V.keys ∧
+    AMap.Equiv B.P.led.credits A.P.led.credits ∧ AMap.Equiv B.P.led.unspent A.P.led.unspent ∧
+    AMap.Equiv B.P.led.debits A.P.led.debits ∧ AMap.Equiv B.P.led.game A.P.led.game ∧
+    AMap.Equiv B.P.led.txrecs A.P.led.txrecs ∧ AMap.Equiv B.P.led.blocks A.P.led.blocks ∧
+    AMap.Equiv B.P.led.sync A.P.led.sync ∧ B.P.led.syncedTo = A.P.led.syncedTo ∧ B.V.led.best = A.V.led.best ∧
+    (∀ w' ∈ walletsOf A.P.ks, AMap.get B.P.led.balance w' = AMap.get A.P.led.balance w' ∧
+      Lemmas.Deepen3.readyB B.P.led w' = true ∧ Lemmas.Deepen3.readyB A.P.led w' = true) :=
+  Lemmas.Deepen4.resumption_anywhere_remove E hl hJ hq
+
+open MW.Lemmas.Deepen3 MW.Lemmas.Deepen4 in
+/-- **removal_drain_total** (round 4): inside a removal window the worker's loop always completes (fuel = number of
+    stored credits + 1) and closes the window -/
+theorem removal_drain_total {cfg : Cfg} {G : Block} (hl : cfg.limit > 0) (cr : Bool) {x : SysQ} {k : Skel} {w : Wid}
+    (hJ : JR cfg G x k w) :
+    JQ cfg.st G (stepT cfg cr x (.removeDrain w)) { k with ks := AMap.erase k.ks w } := JR_removeDrain hl cr hJ
+
+/-- NON-VACUITY of round 4 (`MW.Lemmas.Deepen4Ex`): G–b1–c2 / e2, ImportWallet w3 (manages "a3") with the follower at
+    c2, one batch (cursor 1), the node reorganises to e2 (coinbase pays "a3" AND w1's "a2"), a batch is put off,
+    CreateWallet w2, NewAddress w1, the node goes back to c2 and again to e2, CRASH (e2, c2, e2 queued in the run that
+    never stops; wallet on c2, w3 importing from 1), batch, three handler steps (the second on a STALE notification),
+    importDrain, RemoveWallet w1, one iteration (step size 1), CreateWallet w4, NewAddress w3, an unconfirmed
+    transaction, CRASH, removeDrain: all hypotheses hold … -/
+example : Lemmas.Deepen3.StaticOK Lemmas.Deepen4.exCfg.st Lemmas.Ledger.hxG := Lemmas.Deepen4.ex4StaticOK
+example : Lemmas.Deepen4.JT Lemmas.Deepen4.exCfg Lemmas.Ledger.hxG Lemmas.Deepen3.exX0 Lemmas.Deepen4.exK0T :=
+  Lemmas.Deepen4.exJT0
+example : Lemmas.Deepen4.RunOKT Lemmas.Deepen4.exCfg Lemmas.Ledger.hxG Lemmas.Deepen4.exK0T Lemmas.Deepen4.exEvsT :=
+  Lemmas.Deepen4.exRunOKT
+example (cr : Bool) : Lemmas.Deepen4.GuardT Lemmas.Deepen4.exCfg cr Lemmas.Deepen3.exX0 Lemmas.Deepen4.exEvsT :=
+  Lemmas.Deepen4.exGuard cr
+example : Lemmas.Deepen4.StatOK Lemmas.Deepen3.exX0 := Lemmas.Deepen4.exStatOK0
+example : (Lemmas.Deepen4.skRunT Lemmas.Deepen4.exCfg Lemmas.Deepen4.exK0T Lemmas.Deepen4.exEvsT).busy = none ∧
+    (Lemmas.Deepen4.runT Lemmas.Deepen4.exCfg false Lemmas.Deepen3.exX0 Lemmas.Deepen4.exEvsT).queue = [] :=
+  ⟨by rw [Lemmas.Deepen4.exSkelT], Lemmas.Deepen4.exQuietTT⟩
+/-- … `crash_equiv_tasks_quiet` inside the OPEN import window (17 events, then one more batch: both runs finished, the
+    skeleton still busy) -/
+example : (Lemmas.Deepen4.skRunT Lemmas.Deepen4.exCfg Lemmas.Deepen4.exK0T Lemmas.Deepen4.exEvsW).busy = some (.imp "w3") ∧
+    (Lemmas.Deepen4.runT Lemmas.Deepen4.exCfg true Lemmas.Deepen3.exX0 Lemmas.Deepen4.exEvsW).queue = [] :=
+  ⟨by rfl, Lemmas.Deepen4.exEquivW.1⟩
+/-- … and the crash at event 13 is taken at a non-quiet point inside the import window (the two runs differ there:
+    the crashing run has reorganised onto e2 inside Start, kept the rescan's cursor and has the rescan queued again);
+    at the end w2, w3 and w4 are the only wallets, w3 ready with the coin the rescan picked up -/
+example : (Lemmas.Deepen4.runT Lemmas.Deepen4.exCfg false Lemmas.Deepen3.exX0 (Lemmas.Deepen4.exEvsT.take 13)).V.led.best = ⟨2, "c2"⟩ ∧
+    (Lemmas.Deepen4.runT Lemmas.Deepen4.exCfg true Lemmas.Deepen3.exX0 (Lemmas.Deepen4.exEvsT.take 13)).V.led.best = ⟨2, "e2"⟩ ∧
+    (Lemmas.Deepen4.runT Lemmas.Deepen4.exCfg true Lemmas.Deepen3.exX0 (Lemmas.Deepen4.exEvsT.take 13)).V.tasks = [.imp "w3"] ∧
+    (Lemmas.Deepen4.runT Lemmas.Deepen4.exCfg true Lemmas.Deepen3.exX0 Lemmas.Deepen4.exEvsT).P.ks = Lemmas.Deepen4.exKsE ∧
+    AMap.get (Lemmas.Deepen4.runT Lemmas.Deepen4.exCfg true Lemmas.Deepen3.exX0 Lemmas.Deepen4.exEvsT).P.led.balance "w3" = some 30 := by
+  decide
 
 -- ------------------------------------------------------------------ non-vacuity
 
